@@ -167,7 +167,7 @@ func runCase(chainS, stopKind, class string, n int, stopBound time.Duration) (re
 	if err != nil {
 		return res, err
 	}
-	t.TM.UDFService = &udfService{sink: t.Sink}
+	t.TM.UDFService = &udfService{}
 	t.TM.InfluxDBService = fi
 	hung := false
 	defer func() {
